@@ -13,7 +13,7 @@ r = sh("git -C /repo apply --whitespace=nowarn %s" % patch)
 if r.returncode != 0:
     r = sh("git -C /repo apply -3 --whitespace=nowarn %s" % patch)
     if r.returncode != 0:
-        print("APPLY-FAILED", r.stdout[-500:]); sh("git -C /repo checkout -- ."); sys.exit(4)
+        print("APPLY-FAILED", r.stdout[-500:]); sh("git -C /repo reset -q --hard HEAD"); sys.exit(4)
 res = {}
 try:
     for p in props:
@@ -21,6 +21,5 @@ try:
         lines = [l for l in c.stdout.split("\n") if l.startswith("VIOLATION") or l.startswith("UNDECIDED") or l.startswith("  obligation")]
         res[p] = dict(rc=c.returncode, lines=[l[:300] for l in lines][:8])
 finally:
-    sh("git -C /repo checkout -- .")
-    sh("git -C /repo reset -q")
+    sh("git -C /repo reset -q --hard HEAD")
 print(json.dumps(res, indent=1))
